@@ -32,7 +32,7 @@ def seg_cases(tier, rng):
             g = gen.Gen(rng, ec=gen.mk_ec(chars), version=v)
             for n in sorted(pick):
                 for _ in range(shapes if chars == DEF else 1):
-                    out.append((v, g.segment(n, mode='canon'), False, chars, n))
+                    out.append((v, g.segment(n, mode='canon+'), False, chars, n))
             for _ in range(6 if tier == 'quick' else 30):
                 z = g.zsegment()
                 out.append((v, z, False, chars, z[:3]))
@@ -94,13 +94,13 @@ def run(tier, seed):
             ref = lib.FIELDS[fn]
             if not gen.well_formed_ref(ref) or len(ref) != 6:
                 continue
-            fjobs.append((v, g.by_ref(ref, 0, 'canon', False), fn, False, DEF))
+            fjobs.append((v, g.by_ref(ref, 0, 'canon+', False), fn, False, DEF))
         dnames = sorted(lib.DATATYPES)
         for dn in rng.sample(dnames, min(len(dnames), 80 if tier == 'quick' else len(dnames))):
             ref = lib.DATATYPES[dn]
             if not gen.well_formed_ref(ref) or len(ref) != 6:
                 continue
-            cjobs.append((v, g.by_ref(ref, 1, 'canon', False), dn, None, False, DEF))
+            cjobs.append((v, g.by_ref(ref, 1, 'canon+', False), dn, None, False, DEF))
     fa = vlib.pmap(impl.fld, fjobs)
     ca = vlib.pmap(impl.comp, cjobs)
     fm = vlib.run_driver(['FLD %s T T %s %s %s' % (j[0], vlib.hexs(DEF), j[2], vlib.hexs(j[1])) for j in fjobs] +
